@@ -197,3 +197,429 @@ Proof.
   rewrite (c_key_idx _ C _ _ Q), Z.eqb_refl. cbn [andb].
   rewrite (i_dom_imp _ I). eapply zget_zmem; exact Q.
 Qed.
+
+(* ------------------------------------------------------------------ the representation part:
+   preserved by the two table updates unconditionally, hence by replay from empty maps *)
+Lemma repr_add m0 a : Repr m0 -> Repr (add_device m0 a).
+Proof. intros [A B]. split; cbn [add_device equipment index]; [apply NoDup_zset | apply NoDup_bset]; assumption. Qed.
+
+Lemma repr_ban m0 id cur : Repr m0 -> Repr (ban_device m0 id cur).
+Proof.
+  intros [A B]. split; cbn [ban_device equipment index]; [apply NoDup_zdel; exact A|].
+  destruct (bget (a_key cur) (index m0)) as [i|]; [|exact B].
+  destruct (i =? id); [apply NoDup_bdel; exact B | exact B].
+Qed.
+
+Lemma repr_replay_auths l : forall m0, Repr m0 -> Repr (replay_auths m0 l).
+Proof.
+  induction l as [|a l IH]; intros m0 R; cbn [replay_auths]; [exact R|].
+  destruct (zin (a_id a) (bans m0)); [apply IH; exact R|].
+  destruct (zget (a_id a) (equipment m0)) as [cur|]; [destruct (auth_eqb cur a)|].
+  - apply IH; exact R.
+  - apply IH, repr_ban; exact R.
+  - apply IH, repr_add; exact R.
+Qed.
+
+(* ------------------------------------------------------------------ the extensional part *)
+(* the authorization's key is not in use by a device with another id *)
+Definition key_ok (m0 : mem) (a : auth) : Prop :=
+  forall id, bget (a_key a) (index m0) = Some id -> id = a_id a.
+Definition key_okb (m0 : mem) (a : auth) : bool :=
+  match bget (a_key a) (index m0) with Some id => id =? a_id a | None => true end.
+Lemma key_okb_ok m0 a : key_okb m0 a = true <-> key_ok m0 a.
+Proof.
+  unfold key_okb, key_ok. destruct (bget (a_key a) (index m0)) as [i|].
+  - split; [intros E id H; inversion H; subst; apply Z.eqb_eq; exact E | intros H; apply Z.eqb_eq, H; reflexivity].
+  - split; [intros _ id H; discriminate | reflexivity].
+Qed.
+
+Lemma check_add m0 a : CheckM m0 -> key_ok m0 a -> CheckM (add_device m0 a).
+Proof.
+  intros C K. destruct (repr_add m0 a (conj (c_eq_nodup _ C) (c_idx_nodup _ C))) as [A B].
+  constructor; [exact A | exact B|].
+  intros id a' Q. cbn [add_device equipment index] in *. rewrite zget_zset in Q. rewrite bget_bset.
+  destruct (Z.eqb_spec id (a_id a)) as [->|N].
+  - inversion Q; subst a'. rewrite bytes_eqb_refl. reflexivity.
+  - pose proof (c_key_idx _ C _ _ Q) as Bq.
+    destruct (bytes_eqb (a_key a') (a_key a)) eqn:E; [|exact Bq].
+    apply bytes_eqb_eq in E. rewrite E in Bq. exfalso. apply N. apply K. exact Bq.
+Qed.
+
+(* a ban needs no premise: the banned device's key points at the banned id, the entry goes *)
+Lemma check_ban m0 id cur : CheckM m0 -> zget id (equipment m0) = Some cur -> CheckM (ban_device m0 id cur).
+Proof.
+  intros C Qc. destruct (repr_ban m0 id cur (conj (c_eq_nodup _ C) (c_idx_nodup _ C))) as [A B].
+  constructor; [exact A | exact B|].
+  intros i a' Q. cbn [ban_device equipment index] in *. rewrite zget_zdel in Q.
+  destruct (Z.eqb_spec i id) as [->|N]; [discriminate|].
+  pose proof (c_key_idx _ C _ _ Q) as Bq. rewrite (c_key_idx _ C _ _ Qc), Z.eqb_refl.
+  rewrite bget_bdel. destruct (bytes_eqb (a_key a') (a_key cur)) eqn:E; [|exact Bq].
+  apply bytes_eqb_eq in E. rewrite E, (c_key_idx _ C _ _ Qc) in Bq. inversion Bq. congruence.
+Qed.
+
+Lemma check_ext m1 m2 : Repr m1 -> (forall id, zget id (equipment m1) = zget id (equipment m2)) ->
+  (forall k, bget k (index m1) = bget k (index m2)) -> CheckM m2 -> CheckM m1.
+Proof.
+  intros [A B] E1 E2 C. constructor; [exact A | exact B|].
+  intros id a Q. rewrite E1 in Q. rewrite E2. apply (c_key_idx _ C _ _ Q).
+Qed.
+
+Lemma check_same m1 m2 : equipment m1 = equipment m2 -> index m1 = index m2 -> CheckM m2 -> CheckM m1.
+Proof. intros E1 E2 [A B K]. constructor; rewrite ?E1, ?E2; assumption. Qed.
+
+Lemma check_empty m0 : equipment m0 = [] -> index m0 = [] -> CheckM m0.
+Proof. intros E1 E2. constructor; rewrite ?E1, ?E2; cbn; try constructor. intros id a H. discriminate. Qed.
+
+Section CheckInv.
+  Variable verify : bytes -> bytes -> bytes -> bool.
+  Variable sign : bytes -> bytes -> bytes.
+  Variable stats_sb : list devstat -> Z -> bytes.
+  Local Notation step := (step verify sign stats_sb).
+  Local Notation run := (run verify sign stats_sb).
+  Local Notation catch_up := (catch_up sign stats_sb).
+  Local Notation Inv := (Inv verify).
+
+  (* ---- operations that never touch the two tables *)
+  Lemma integrate_tables st r :
+    equipment (mm (fst (integrate st r))) = equipment (mm st) /\ index (mm (fst (integrate st r))) = index (mm st).
+  Proof.
+    unfold integrate.
+    destruct (r_ts r <? offset (mm st)); [split; reflexivity|].
+    destruct (u32 (offset (mm st) + window_len) <=? r_ts r); [split; reflexivity|].
+    destruct (zget (r_id r) (reports (mm st))); [|split; reflexivity].
+    destruct (window_len <=? u32 (r_ts r - offset (mm st))); [split; reflexivity|].
+    destruct (r_p (getslot _ _) =? 1); [split; reflexivity|].
+    destruct (report_eqb _ r); split; reflexivity.
+  Qed.
+
+  Lemma rotate_tables st :
+    equipment (mm (fst (rotate sign stats_sb st))) = equipment (mm st) /\
+    index (mm (fst (rotate sign stats_sb st))) = index (mm st).
+  Proof. unfold rotate. destruct (build_stats sign stats_sb (mm st) (offset (mm st))); split; reflexivity. Qed.
+
+  Lemma catch_up_tables fuel : forall st now,
+    equipment (mm (fst (catch_up fuel st now))) = equipment (mm st) /\
+    index (mm (fst (catch_up fuel st now))) = index (mm st).
+  Proof.
+    induction fuel as [|f IH]; intros st now; cbn [Server.catch_up];
+      destruct (i64 now - i64 (offset (mm st)) <? catchup_bound); try (split; reflexivity).
+    destruct (rotate_tables st) as [E1 E2].
+    destruct (rotate sign stats_sb st) as [st' o]. cbn [fst] in E1, E2.
+    destruct o; cbn [fst]; try (split; assumption).
+    destruct (IH st' now) as [F1 F2]. split; congruence.
+  Qed.
+
+  Lemma replay_reports_tables l : forall st st',
+    replay_reports verify st l = LOk st' ->
+    equipment (mm st') = equipment (mm st) /\ index (mm st') = index (mm st).
+  Proof.
+    induction l as [|r l IH]; intros st st' H; cbn [replay_reports] in H.
+    - inversion H; subst. split; reflexivity.
+    - destruct (zget (r_id r) (equipment (mm st))) as [a|].
+      + destruct (negb (verify (a_key a) (report_signing_bytes r) (r_sig r))); [discriminate|].
+        destruct (integrate_tables st r) as [E1 E2].
+        destruct (integrate st r) as [st1 o]. cbn [fst] in E1, E2.
+        destruct o; try discriminate. destruct (IH _ _ H) as [F1 F2]. split; congruence.
+      + destruct (zin (r_id r) (bans (mm st))); [apply IH; exact H | discriminate].
+  Qed.
+
+  (* whatever the directory holds: what start-up builds has duplicate-free tables *)
+  Lemma load_repr dk fresh st' : load verify dk fresh = LOk st' -> Repr (mm st').
+  Proof.
+    unfold load. destruct (d_temp dk) as [tk|]; [|discriminate].
+    destruct (negb (forallb _ _)); [discriminate|]. intros H.
+    apply replay_reports_tables in H. cbn [mm] in H. destruct H as [E1 E2].
+    unfold Repr. rewrite E1, E2. apply repr_replay_auths. split; cbn; constructor.
+  Qed.
+
+  Lemma step_tables_fixed st o : (forall a, o <> OpAuthorize a) -> (forall f n, o <> OpRestart f n) ->
+    equipment (mm (fst (step st o))) = equipment (mm st) /\ index (mm (fst (step st o))) = index (mm st).
+  Proof.
+    intros NA NR. destruct o as [now d|k s|a|tso|now|i ts v|fresh now]; cbn [Server.step].
+    - unfold udp_receive. destruct (Nat.ltb (length d) 80); [split; reflexivity|].
+      unfold handle_report. destruct (parse_report verify st (firstn 80 d)) as [r|]; [|split; reflexivity].
+      destruct (negb _); [split; reflexivity|]. destruct (_ || _); [split; reflexivity|].
+      apply integrate_tables.
+    - unfold register. destruct (gca_avail (mm st)); [split; reflexivity|]. destruct (negb _); split; reflexivity.
+    - exfalso. eapply NA; reflexivity.
+    - unfold stats_query. destruct (negb _); [split; reflexivity|].
+      destruct (tso <? _); [destruct (nth_error _ _); split; reflexivity|].
+      destruct (build_stats _ _ _ _); split; reflexivity.
+    - unfold rotate_tick. destruct (_ <? _); [apply rotate_tables | split; reflexivity].
+    - unfold impact_write. destruct (_ && _); [|split; reflexivity]. destruct (zget i _); split; reflexivity.
+    - exfalso. eapply NR; reflexivity.
+  Qed.
+
+  (* ---- authorizations: the premise is needed only when a NEW device is accepted *)
+  Lemma save_equipment_check st a :
+    CheckM (mm st) -> (snd (save_equipment st a) = Accepted true -> key_ok (mm st) a) ->
+    CheckM (mm (fst (save_equipment st a))).
+  Proof.
+    intros C K. unfold save_equipment in *.
+    destruct (zin (a_id a) (bans (mm st))); [exact C|].
+    destruct (zget (a_id a) (equipment (mm st))) as [cur|] eqn:Q.
+    - destruct (auth_go_eq cur a); [exact C|]. destruct (d_auths (dd st)); [|exact C].
+      cbn [fst mm]. apply check_ban; assumption.
+    - destruct (d_auths (dd st)); [|exact C]. cbn [fst snd mm] in *. apply check_add; [exact C | apply K; reflexivity].
+  Qed.
+
+  Lemma authorize_check st a :
+    CheckM (mm st) -> (snd (authorize verify st a) = Accepted true -> key_ok (mm st) a) ->
+    CheckM (mm (fst (authorize verify st a))).
+  Proof.
+    intros C K. unfold authorize in *. destruct (negb (gca_avail (mm st))); [exact C|].
+    destruct (negb (verify _ _ _)); [exact C|]. apply save_equipment_check; assumption.
+  Qed.
+
+  (* an authorization that is not accepted as a new device never adds a key *)
+  Lemma authorize_new_only st a : snd (authorize verify st a) = Accepted true ->
+    zget (a_id a) (equipment (mm st)) = None /\ mm (fst (authorize verify st a)) = add_device (mm st) a.
+  Proof.
+    unfold authorize. destruct (negb (gca_avail (mm st))); [discriminate|].
+    destruct (negb (verify _ _ _)); [discriminate|]. unfold save_equipment.
+    destruct (zin (a_id a) (bans (mm st))); [discriminate|].
+    destruct (zget (a_id a) (equipment (mm st))) as [cur|].
+    - destruct (auth_go_eq cur a); [discriminate|]. destruct (d_auths (dd st)); discriminate.
+    - destruct (d_auths (dd st)); [|discriminate]. intros _. split; reflexivity.
+  Qed.
+
+  (* ---- restart: the reloaded tables are duplicate-free by construction and extensionally
+     equal to the live ones (mem_equiv covers both the equipment map and the key index) *)
+  Lemma restart_check st fresh now : Inv st -> clock_ok now -> CheckM (mm st) ->
+    CheckM (mm (fst (step st (OpRestart fresh now)))).
+  Proof.
+    intros I C K. cbn [Server.step].
+    destruct (restart_spec verify sign stats_sb st fresh now I C) as (st1 & L & ME & _ & E & _ & _). rewrite E.
+    destruct (catch_up_tables (catchup_fuel now) st1 now) as [E1 E2].
+    apply (check_same _ (mm st1) E1 E2).
+    apply (check_ext _ (mm st)); [exact (load_repr _ _ _ L) | exact (e_eq _ _ ME) | exact (e_idx _ _ ME) | exact K].
+  Qed.
+
+  (* ---- the premise: evaluated along the run *)
+  Definition key_pre (st : state) (o : op) : Prop :=
+    match o with
+    | OpAuthorize a => snd (step st o) = Accepted true -> key_ok (mm st) a
+    | _ => True
+    end.
+  Fixpoint keys_ok (st : state) (ops : list op) : Prop :=
+    match ops with
+    | [] => True
+    | o :: r => key_pre st o /\ keys_ok (fst (step st o)) r
+    end.
+
+  (* executable version of the premise *)
+  Definition key_preb (st : state) (o : op) : bool :=
+    match o with
+    | OpAuthorize a => match snd (step st o) with Accepted true => key_okb (mm st) a | _ => true end
+    | _ => true
+    end.
+  Fixpoint keys_okb (st : state) (ops : list op) : bool :=
+    match ops with
+    | [] => true
+    | o :: r => key_preb st o && keys_okb (fst (step st o)) r
+    end.
+  Lemma key_preb_ok st o : key_preb st o = true <-> key_pre st o.
+  Proof.
+    destruct o as [now d|k s|a|tso|now|i ts v|fresh now]; cbn [key_preb key_pre]; try tauto.
+    destruct (snd (step st (OpAuthorize a))) as [|[|]| | |];
+      try (split; [intros _ H; discriminate | reflexivity]).
+    rewrite key_okb_ok. tauto.
+  Qed.
+  Lemma keys_okb_ok ops : forall st, keys_okb st ops = true <-> keys_ok st ops.
+  Proof.
+    induction ops as [|o ops IH]; intros st; cbn [keys_okb keys_ok]; [tauto|].
+    rewrite andb_true_iff, key_preb_ok, IH. tauto.
+  Qed.
+
+  (* the simpler, stronger premise (every authorization, accepted or not) implies it *)
+  Lemma key_ok_pre st a : key_ok (mm st) a -> key_pre st (OpAuthorize a).
+  Proof. intros K _. exact K. Qed.
+
+  (* ---- one step, every history *)
+  Theorem step_check st o : Inv st -> op_ok o -> CheckOK st -> key_pre st o -> CheckOK (fst (step st o)).
+  Proof.
+    unfold CheckOK. intros I K C P.
+    destruct o as [now d|k s|a|tso|now|i ts v|fresh now];
+      try (match goal with |- CheckM (mm (fst (Server.step _ _ _ st ?o))) =>
+             destruct (step_tables_fixed st o) as [E1 E2];
+               [intros ?; discriminate | intros ? ?; discriminate | apply (check_same _ _ E1 E2); exact C] end).
+    - cbn [Server.step key_pre] in *. apply authorize_check; assumption.
+    - apply restart_check; assumption.
+  Qed.
+
+  Theorem run_check ops : forall st, Inv st -> CheckOK st -> Forall op_ok ops -> keys_ok st ops ->
+    CheckOK (run st ops).
+  Proof.
+    induction ops as [|o ops IH]; intros st I C F P; [exact C|].
+    inversion F as [|? ? K F']; subst. destruct P as [P P']. rewrite run_cons.
+    apply IH; [apply (step_inv verify sign stats_sb st o I K) | apply step_check; assumption | exact F' | exact P'].
+  Qed.
+
+  (* ---- C06, last clause: the consistency check passes after every history *)
+  Theorem consistency_check_passes ops st : Inv st -> CheckOK st -> Forall op_ok ops -> keys_ok st ops ->
+    CheckOK (run st ops) /\ check_invariants (run st ops) = true.
+  Proof.
+    intros I C F P. pose proof (run_check ops st I C F P) as C'.
+    split; [exact C'|]. apply check_ok_passes; [exact C'|].
+    apply (run_inv verify sign stats_sb ops st I F).
+  Qed.
+
+  Lemma Forall_firstn_ {A} (P : A -> Prop) (l : list A) : forall n, Forall P l -> Forall P (firstn n l).
+  Proof.
+    induction l as [|x l IH]; intros [|n] F; cbn [firstn]; try constructor.
+    - inversion F; assumption.
+    - apply IH. inversion F; assumption.
+  Qed.
+  Lemma keys_ok_firstn ops : forall st n, keys_ok st ops -> keys_ok st (firstn n ops).
+  Proof.
+    induction ops as [|o ops IH]; intros st [|n] P; cbn [firstn keys_ok]; try exact I.
+    destruct P as [P P']. split; [exact P | apply IH; exact P'].
+  Qed.
+
+  (* "keeps passing": at every point of the history, not only at its end *)
+  Theorem consistency_check_always ops st n : Inv st -> CheckOK st -> Forall op_ok ops -> keys_ok st ops ->
+    check_invariants (run st (firstn n ops)) = true.
+  Proof.
+    intros I C F P.
+    apply (consistency_check_passes (firstn n ops) st I C (Forall_firstn_ _ _ n F) (keys_ok_firstn ops st n P)).
+  Qed.
+
+  (* ---- from the first start: so the theorem covers every reachable state *)
+  Theorem first_start_check tk fresh now st0 :
+    load verify (fresh_disk tk) fresh = LOk st0 ->
+    CheckOK (fst (catch_up (catchup_fuel now) st0 now)).
+  Proof.
+    intros L. destruct (catch_up_tables (catchup_fuel now) st0 now) as [E1 E2].
+    cbn in L. inversion L; subst st0; clear L. cbn [mm equipment index] in E1, E2.
+    apply check_empty; assumption.
+  Qed.
+
+  Theorem consistency_check_first_start tk fresh now st0 ops :
+    clock_ok now -> load verify (fresh_disk tk) fresh = LOk st0 ->
+    let s := fst (catch_up (catchup_fuel now) st0 now) in
+    Forall op_ok ops -> keys_ok s ops ->
+    CheckOK (run s ops) /\ check_invariants (run s ops) = true.
+  Proof.
+    intros C L s F P. apply consistency_check_passes; [|apply first_start_check with (tk := tk) (fresh := fresh); exact L | exact F | exact P].
+    apply (first_start_full verify sign stats_sb tk fresh now st0 C L).
+  Qed.
+End CheckInv.
+
+(* ------------------------------------------------------------------ concrete histories *)
+Definition vtrue (_ _ _ : bytes) : bool := true.          (* every signature verifies *)
+Definition csign (_ _ : bytes) : bytes := [].
+Definition csb (_ : list devstat) (_ : Z) : bytes := [].
+
+Definition ex_tk : bytes := [].
+Definition ex_fresh : bytes * bytes := ([], []).
+Definition ex_key (b : Byte.byte) : bytes := pad 32 [b].
+Definition ex_auth (id : Z) (key : bytes) (cap : Z) : auth :=
+  {| a_id := id; a_key := key; a_lat := 0; a_long := 0; a_cap := cap; a_debt := 0;
+     a_exp := 0; a_init := 0; a_fee := 0; a_sig := [] |}.
+
+(* the state right after the first start on a fresh directory, at timeslot 10 *)
+Definition ex_dummy : state :=
+  {| mm := {| equipment := []; index := []; bans := []; reports := []; impact := []; offset := 0; history := [];
+              gca := []; gca_avail := false; tempkey := []; skeys := ([], []) |};
+     dd := fresh_disk [] |}.
+Definition ex_loaded : state :=
+  match load vtrue (fresh_disk ex_tk) ex_fresh with LOk s => s | _ => ex_dummy end.
+Definition ex_first : state := fst (catch_up csign csb (catchup_fuel 10) ex_loaded 10).
+
+Lemma ex_loaded_ok : load vtrue (fresh_disk ex_tk) ex_fresh = LOk ex_loaded.
+Proof. reflexivity. Qed.
+Lemma ex_clock : clock_ok 10.
+Proof. unfold clock_ok. lia. Qed.
+Lemma ex_first_inv : Inv vtrue ex_first.
+Proof. exact (proj1 (first_start_full vtrue csign csb ex_tk ex_fresh 10 ex_loaded ex_clock ex_loaded_ok)). Qed.
+Lemma ex_auth_finite id key cap : auth_finite (ex_auth id key cap).
+Proof. split; reflexivity. Qed.
+
+(* ---- K4: a GCA-signed authorization for a FRESH id that carries the key of ANOTHER LIVE
+   device is accepted, overwrites that device's key->id entry, and the check fails *)
+Definition k4_ops : list (op) :=
+  [OpRegister (ex_key Byte.x01) [];
+   OpAuthorize (ex_auth 1 (ex_key Byte.x0a) 1000);
+   OpAuthorize (ex_auth 2 (ex_key Byte.x0a) 1000)].
+
+Lemma k4_ops_ok : Forall op_ok k4_ops.
+Proof.
+  unfold k4_ops. constructor; [exact I|]. constructor; [apply ex_auth_finite|].
+  constructor; [apply ex_auth_finite | constructor].
+Qed.
+
+Theorem key_reuse_refuted :
+  exists tk fresh now st0 ops,
+    clock_ok now /\ load vtrue (fresh_disk tk) fresh = LOk st0 /\
+    let s := fst (catch_up csign csb (catchup_fuel now) st0 now) in
+    Forall op_ok ops /\
+    outs vtrue csign csb s ops = [Accepted true; Accepted true; Accepted true] /\
+    Inv vtrue (run vtrue csign csb s ops) /\
+    ~ keys_ok vtrue csign csb s ops /\
+    check_invariants (run vtrue csign csb s ops) = false.
+Proof.
+  exists ex_tk, ex_fresh, 10, ex_loaded, k4_ops.
+  split; [exact ex_clock|]. split; [exact ex_loaded_ok|]. cbv zeta. fold ex_first.
+  split; [exact k4_ops_ok|].
+  split; [vm_compute; reflexivity|].
+  split; [apply (run_inv vtrue csign csb k4_ops ex_first ex_first_inv k4_ops_ok)|].
+  assert (F : check_invariants (run vtrue csign csb ex_first k4_ops) = false) by (vm_compute; reflexivity).
+  split; [|exact F].
+  intros P.
+  destruct (consistency_check_passes vtrue csign csb k4_ops ex_first ex_first_inv
+              (first_start_check vtrue csign csb ex_tk ex_fresh 10 ex_loaded ex_loaded_ok) k4_ops_ok P) as [_ T].
+  rewrite F in T. discriminate.
+Qed.
+
+(* the short form: some history of in-domain operations makes the check fail *)
+Corollary key_reuse_refuted_short :
+  exists ops, Forall op_ok ops /\ check_invariants (run vtrue csign csb ex_first ops) = false.
+Proof. exists k4_ops. split; [exact k4_ops_ok | vm_compute; reflexivity]. Qed.
+
+(* ---- non-vacuity: a reachable state with two devices, then one more fresh device, one
+   conflicting authorization (which bans device 1), and a restart *)
+Definition nv_setup : list (op) :=
+  [OpRegister (ex_key Byte.x01) [];
+   OpAuthorize (ex_auth 1 (ex_key Byte.x0a) 1000);
+   OpAuthorize (ex_auth 2 (ex_key Byte.x0b) 1000)].
+Definition nv_state : state := run vtrue csign csb ex_first nv_setup.
+Definition nv_ops : list (op) :=
+  [OpAuthorize (ex_auth 3 (ex_key Byte.x0c) 1000);
+   OpAuthorize (ex_auth 1 (ex_key Byte.x0a) 2000);
+   OpRestart ex_fresh 12].
+
+Lemma nv_setup_ok : Forall op_ok nv_setup.
+Proof.
+  unfold nv_setup. constructor; [exact I|]. constructor; [apply ex_auth_finite|].
+  constructor; [apply ex_auth_finite | constructor].
+Qed.
+Lemma nv_ops_ok : Forall op_ok nv_ops.
+Proof.
+  unfold nv_ops. constructor; [apply ex_auth_finite|]. constructor; [apply ex_auth_finite|].
+  constructor; [unfold op_ok, clock_ok; lia | constructor].
+Qed.
+
+Example check_nonvacuous :
+  Inv vtrue nv_state /\ CheckOK nv_state /\
+  map fst (zsort (equipment (mm nv_state))) = [1; 2] /\
+  Forall op_ok nv_ops /\ keys_ok vtrue csign csb nv_state nv_ops /\
+  outs vtrue csign csb nv_state nv_ops = [Accepted true; Refused; Quiet] /\
+  map fst (zsort (equipment (mm (run vtrue csign csb nv_state nv_ops)))) = [2; 3] /\
+  bans (mm (run vtrue csign csb nv_state nv_ops)) = [1] /\
+  check_invariants (run vtrue csign csb nv_state nv_ops) = true.
+Proof.
+  assert (K0 : keys_ok vtrue csign csb ex_first nv_setup) by (apply keys_okb_ok; vm_compute; reflexivity).
+  assert (I0 : Inv vtrue nv_state) by (apply (run_inv vtrue csign csb nv_setup ex_first ex_first_inv nv_setup_ok)).
+  assert (C0 : CheckOK nv_state).
+  { apply (consistency_check_passes vtrue csign csb nv_setup ex_first ex_first_inv
+             (first_start_check vtrue csign csb ex_tk ex_fresh 10 ex_loaded ex_loaded_ok) nv_setup_ok K0). }
+  assert (K1 : keys_ok vtrue csign csb nv_state nv_ops) by (apply keys_okb_ok; vm_compute; reflexivity).
+  split; [exact I0|]. split; [exact C0|]. split; [vm_compute; reflexivity|].
+  split; [exact nv_ops_ok|]. split; [exact K1|].
+  split; [vm_compute; reflexivity|]. split; [vm_compute; reflexivity|]. split; [vm_compute; reflexivity|].
+  apply (consistency_check_passes vtrue csign csb nv_ops nv_state I0 C0 nv_ops_ok K1).
+Qed.
+
+(* the same end state, checked by evaluation alone *)
+Example check_nonvacuous_eval : check_invariants (run vtrue csign csb nv_state nv_ops) = true.
+Proof. vm_compute. reflexivity. Qed.
